@@ -55,7 +55,10 @@ fn sweep(out: &mut dyn Write, extra: &mut BTreeSet<u64>) {
         if v < 0 {
             panics += 1;
         }
-        if d == 0 || v != exact(n, d) as i64 {
+        // n = 0: the exact ceiling is 0 but the property also says "never less than one": 0 and 1
+        // are both left to the monitor (drv_slots.ml, class zero-blob), neither counts as wrong here
+        let ok = d != 0 && (v == exact(n, d) as i64 || (n == 0 && v == 1));
+        if !ok {
             wrong += 1;
             if first < 0 {
                 first = n as i64;
